@@ -722,3 +722,73 @@ def iterrename(h):
                               z3.ForAll([q], z3.Implies(z3.And(0 <= q, q < hdr.len),
                                                         z3.Select(o.arr, q) == z3.If(q == pidx.t, X.t, z3.If(smt.py_eq(name(q), n.t), Y.t, name(q)))))))
     h.explore(body)
+
+
+# ------------------------------------------------------------------------------------------------ movefield
+MV = B + 'MoveFieldView.__iter__'
+
+
+@vc('C12.movefield', functions=[MV, B + 'MoveFieldView.__init__', B + 'movefield', UB + 'rowgetter'], props=['C12', 'C03', 'C20', 'C02'],
+    assumptions=['contract of asindices (contracts/lib_base.py), discharged by C12.asindices.range',
+                 'stateless-body rule (engine meta-theorem)',
+                 'the header rearrangement itself (filter + insert + str names) is decided by the bounded layer only'])
+def movefield(h):
+    """movefield(t, field, index): per data row the output is the cells selected by `indices` (what asindices resolved for the
+    rearranged header), a short row padded with the view's `missing`, never dropped and never an IndexError; the view gets the
+    caller's table, field and index."""
+    def body(ctx):
+        def delta(ls, x, dout):
+            indices = ls['indices']
+            row = view_seq(x)
+            missing = ls['self'].attrs['missing']
+            o = out_row(dout, 0)
+            q = smt.fresh_int('q')
+            ctx.oblige('movefield: exactly one output row per input row', dout.len == 1)
+            ctx.oblige('movefield: one cell per output field', o.len == indices.len)
+            ctx.oblige('movefield: cell j is the cell of the field now at position j, or `missing` if the row is too short (never dropped, never IndexError)',
+                       z3.ForAll([q], z3.Implies(z3.And(0 <= q, q < indices.len),
+                                                 z3.Select(o.arr, q) == z3.If(idx(indices, q) < row.len, z3.Select(row.arr, idx(indices, q)), as_v(missing)))))
+        it = h.interp(ctx, loops={(MV, 0): LoopSpec(delta=delta, label='data rows')}, summaries=lib_base.SUMMARIES)
+        it.exact_filters = True
+        S = sym_table(ctx, 'S', nmin=1)
+        field, index = sym_cell('field'), sym_int('index')
+        view = it.call(closure_of(it, B + 'movefield'), [S, field, index], {})
+        a = getattr(view, 'attrs', {})
+        ctx.oblige('movefield: the view gets the caller\'s table, field and index; missing defaults to None',
+                   z3.BoolVal(bool(a.get('table') is S and a.get('field') is field and a.get('index') is index)))
+        cls = closure_of(it, B + 'MoveFieldView')
+        res = run_generator(it, cls.find('__iter__')[0], [view])
+        if res.exc is not None:
+            inloop = getattr(ctx, 'in_iteration', None)
+            ctx.oblige('movefield: no exception escapes while rows are processed; only FieldSelectionError before the data',
+                       z3.BoolVal(inloop is None and res.exc.kind == 'FieldSelectionError'), res.exc.origin or '')
+            return
+        pre = ctx.pre_loop_out
+        ctx.oblige('movefield: exactly one header row before the data, nothing after the last row',
+                   z3.And(pre.len == 1, res.out.len == 0))
+        # header: the source fields that are != field, in source order, with `field` inserted at the index (list.insert clamping).
+        # The filter comprehension is characterised exactly by the engine through a strictly increasing index map fidx and its
+        # inverse finv (pyvc.builtins.exact_filter, T6); the obligation restates that characterisation for the EMITTED header.
+        outhdr = res.env.lookup('outhdr')
+        fo = getattr(outhdr, 'filter_of', None)
+        ctx.oblige('movefield: the header is built by filtering the source header', z3.BoolVal(fo is not None))
+        if fo is None:
+            return
+        fidx, finv = fo
+        hdr = src_row(S, 0)
+        o = out_row(pre, 0)
+        pos = clamp_ins(_t(index), o.len - 1)
+        q, q2, p_ = smt.fresh_int('q'), smt.fresh_int('q2'), smt.fresh_int('p')
+        jq = lambda x: z3.If(x < pos, fidx(x), fidx(x - 1))
+        ctx.oblige('movefield: the moved field sits at the requested index (negative / out-of-range indices clamp as list.insert does)',
+                   z3.And(o.len >= 1, 0 <= pos, pos < o.len, z3.Select(o.arr, pos) == field.t))
+        ctx.oblige('movefield: every other header cell is a source field other than the moved one, each at most once and in source order',
+                   z3.And(z3.ForAll([q], z3.Implies(z3.And(0 <= q, q < o.len, q != pos),
+                                                    z3.And(0 <= jq(q), jq(q) < hdr.len, z3.Select(o.arr, q) == z3.Select(hdr.arr, jq(q)),
+                                                           z3.Not(smt.py_eq(z3.Select(hdr.arr, jq(q)), field.t))))),
+                          z3.ForAll([q, q2], z3.Implies(z3.And(0 <= q, q < q2, q2 < o.len, q != pos, q2 != pos), jq(q) < jq(q2)))))
+        ctx.oblige('movefield: no other source field is lost: every source field != the moved one appears in the header',
+                   z3.ForAll([p_], z3.Implies(z3.And(0 <= p_, p_ < hdr.len, z3.Not(smt.py_eq(z3.Select(hdr.arr, p_), field.t))),
+                                              z3.And(0 <= finv(p_), finv(p_) < o.len - 1,
+                                                     z3.Select(o.arr, z3.If(finv(p_) < pos, finv(p_), finv(p_) + 1)) == z3.Select(hdr.arr, p_)))))
+    h.explore(body)
